@@ -25,6 +25,10 @@ func checkC05(c *Ctx, r *Report) {
 	checkQRInfoReadPositions(c, r)
 	checkQRFunctionPattern(c, r) // which modules carry codewords: a misplaced function-pattern rectangle feeds wrong bits into the blocks
 	checkRSFullParity(c, r)
+	checkRSWord(c, r)
+	checkQRInterleave(c, r)
+	checkQRZigZag(c, r)
+	checkDMDeinterleave(c, r)
 	r.Note("not decided: Reed-Solomon correction itself (C04 decides its configuration), de-interleaving of codewords into blocks (loop-carried index arithmetic in DataBlock_GetDataBlocks / DataBlocks_getDataBlocks)")
 }
 
@@ -606,5 +610,91 @@ func checkQRInfoReadPositions(c *Ctx, r *Report) {
 		default:
 			r.Pass("T-INFOREAD", key, "", "")
 		}
+	}
+}
+
+// the word handed to the Reed-Solomon decoder is exactly the block, and the corrected data comes back
+func checkRSWord(c *Ctx, r *Report) {
+	r.Rule("S-RSWORD", "QR and Data Matrix correctErrors, folded with the Reed-Solomon decoder replaced by a recorder, hand Decode a word that is exactly the block - one symbol per codeword, in order, values 0..255, nothing before or after it (a longer word would let the decoder 'correct' positions that are not in the symbol instead of rejecting them) - with twoS = all of the block's check codewords, and afterwards store the first numDataCodewords symbols of that word, as corrected by the decoder, back into the block; blocks of (data, check) = (1,2), (3,4), (5,10), (19,7)", 2)
+	for _, rel := range []string{"qrcode/decoder", "datamatrix/decoder"} {
+		fd, p := c.funcDeclOf(rel, "Decoder.correctErrors")
+		key := rel + ".Decoder.correctErrors.word"
+		if fd == nil {
+			r.AnchorLost("S-RSWORD", key, "method not found")
+			continue
+		}
+		r.Analysed(key)
+		bad := ""
+		for _, shape := range [][2]int{{1, 2}, {3, 4}, {5, 10}, {19, 7}} {
+			nd, ne := shape[0], shape[1]
+			block := &Val{K: VList, Local: true}
+			var orig []int64
+			for i := 0; i < nd+ne; i++ {
+				v := int64((i*37 + 200) % 256)
+				orig = append(orig, v)
+				block.L = append(block.L, vint(v))
+			}
+			calls := 0
+			var gotWord []int64
+			var gotTwoS int64
+			h := &rpf{unroll: 1000}
+			h.callHook = func(rr *rpf, call *ast.CallExpr, callee types.Object) (*Val, bool) {
+				if isMethodNamed(callee, "common/reedsolomon", "ReedSolomonDecoder", "Decode") && len(call.Args) == 2 {
+					w, n := rr.expr(call.Args[0]), rr.expr(call.Args[1])
+					ws, ok := listInts(w)
+					if !ok || n.K != VInt {
+						rpfFail("Reed-Solomon decoder called with a word that is not a list of constants")
+					}
+					calls++
+					gotWord, gotTwoS = ws, n.I
+					if !w.Local {
+						rpfFail("Reed-Solomon decoder called on storage not created in correctErrors")
+					}
+					// the decoder 'corrects' every symbol: symbol i becomes 255 - value
+					for i := range w.L {
+						w.L[i] = vint(255 - ws[i])
+					}
+					return &Val{K: VNil}, true
+				}
+				return errCtorHook(rr, call, callee)
+			}
+			res, err := c.rpfCall(fd, p, []*Val{block, vint(int64(nd))}, h)
+			if err != nil {
+				bad = "?" + err.Error()
+				break
+			}
+			what := fmt.Sprintf("block of %d data and %d check codewords", nd, ne)
+			if len(res) != 1 || res[0].K != VNil {
+				bad = what + ": an error is returned although the decoder reported none"
+				break
+			}
+			if calls != 1 {
+				bad = fmt.Sprintf("%s: the Reed-Solomon decoder is called %d times", what, calls)
+				break
+			}
+			if fmt.Sprint(gotWord) != fmt.Sprint(orig) {
+				bad = fmt.Sprintf("%s: the decoder is handed a word of %d symbols %v, the block is the %d symbols %v", what, len(gotWord), gotWord, len(orig), orig)
+				break
+			}
+			if gotTwoS != int64(ne) {
+				bad = fmt.Sprintf("%s: the decoder is told to use %d check symbols", what, gotTwoS)
+				break
+			}
+			after, _ := listInts(block)
+			for i := range after {
+				want := orig[i]
+				if i < nd {
+					want = 255 - orig[i]
+				}
+				if after[i] != want && (i < nd) {
+					bad = fmt.Sprintf("%s: data codeword %d of the block is %d after correction, the decoder's word holds %d there", what, i, after[i], want)
+					break
+				}
+			}
+			if bad != "" {
+				break
+			}
+		}
+		reportFold(r, c, "S-RSWORD", key, fd.Pos(), bad)
 	}
 }
